@@ -30,3 +30,21 @@ def check_parser():
     for raw, exp in g["block_strings"]:
         if R.block_string_value(raw) != exp:
             raise HarnessError("reference BlockStringValue disagrees with golden on %r" % raw)
+
+
+def check_exec():
+    from vlib.gen import schema as GS
+    from vlib.ref import exec as RX
+    path = os.path.join(HERE, "goldens_exec.json")
+    with open(path) as f:
+        g = json.load(f)
+    for e in g["cases"]:
+        spec = GS.Spec(e["spec"])
+        w = RX.World(spec, **{k: e["world"][k] for k in ("salt", "p_err", "p_null", "p_null_item")})
+        try:
+            r = RX.execute(spec, e["text"], e["variables"], w, e["operation_name"])
+            got = [json.dumps(r.data), sorted([list(x[0]), x[1], x[2]] for x in r.errors)]
+        except RX.RequestError:
+            got = ["REQUEST-ERROR"]
+        if json.loads(json.dumps(got)) != e["expect"]:
+            raise HarnessError("reference executor disagrees with golden on %r" % e["text"][:100])
